@@ -386,4 +386,152 @@ theorem invalidate_refines (s : Spec.State) (t : Tbl) (k : Nat) (hs : s.m = absT
     · simp only [hphys, hkey, cause_eq]
       rfl
 
+theorem find_put (m : List (Nat × Entry)) (k : Nat) (e : Entry) : Spec.find (Spec.put m k e) k = some e := by
+  unfold Spec.find Spec.put; simp
+
+/-! ### reads -/
+
+/-- durations handed out by read calculators fit an int64 -/
+def ReadOk (c : Cfg) : Prop :=
+  (∀ d, c.expiry = .accessing d → 0 < d ∧ d ≤ maxI64) ∧ (∀ k, c.expRead.get k ≤ maxI64)
+
+/-- the deadline a read stores (calcExpiresAtAfterRead + setExpiresAfterRead, with its `|d - current| > 0` test on int64
+    differences) is the spec's expAfterRead -/
+theorem read_refines (c : Cfg) (k : Nat) (o : TNode) (now : Int)
+    (hnow : -4611686018427387904 < now ∧ now < 4611686018427387904)
+    (hkey : o.key = k) (hvis : now < o.exp) (hmax : o.exp ≤ maxI64) (hr : ReadOk c) :
+    absN (calcExpiresAtAfterRead (cfgOf c) o now) = { absN o with exp := Spec.expAfterRead c now k (absN o) } := by
+  obtain ⟨e, he⟩ : ∃ e, c.expiry = e := ⟨_, rfl⟩
+  have hkeep : ∀ d : Int, 0 < d → d ≤ maxI64 → d = durationTo o.exp now → o.exp = satAdd now d := by
+    intro d hd _ hz
+    exact keep_or_set o.exp now d hnow hmax hd (by omega) hz.symm
+  unfold calcExpiresAtAfterRead Spec.expAfterRead
+  simp only [cfgOf, Cfg.withExpiry, hkey]
+  have hacc := hr.1
+  rw [he] at hacc
+  simp only [he]
+  cases e with
+  | none => simp [absN]
+  | creating d | writing d =>
+    -- the calculator answers with the current duration: nothing is stored
+    simp only [bne_iff_ne, ne_eq, reduceCtorEq, not_false_eq_true, decide_true, Bool.not_true, Bool.false_eq_true, ↓reduceIte]
+    by_cases hle : durationTo o.exp now ≤ 0
+    · simp [hle, absN]
+    · simp [hle, absN]
+  | accessing d =>
+    obtain ⟨hd, hdm⟩ := hacc d rfl
+    simp only [bne_iff_ne, ne_eq, reduceCtorEq, not_false_eq_true, decide_true, Bool.not_true, Bool.false_eq_true, ↓reduceIte]
+    have hnle : ¬ d ≤ 0 := by omega
+    simp only [hnle, ↓reduceIte]
+    by_cases hz : d = durationTo o.exp now
+    · have := hkeep d hd hdm hz
+      have hb : (d != durationTo o.exp now) = false := by rw [← hz]; simp
+      simp only [hb, Bool.false_eq_true, ↓reduceIte, absN]
+      rw [← this]
+      simp [if_pos hz]
+    · have hb : (d != durationTo o.exp now) = true := by simpa using hz
+      simp [hb, absN, deadlineAfter_eq_satAdd, if_neg hz]
+  | custom =>
+    simp only [bne_iff_ne, ne_eq, reduceCtorEq, not_false_eq_true, decide_true, Bool.not_true, Bool.false_eq_true, ↓reduceIte]
+    by_cases hd : 0 < c.expRead.get k
+    · have hnle : ¬ c.expRead.get k ≤ 0 := by omega
+      simp only [hnle, ↓reduceIte, gt_iff_lt, hd]
+      by_cases hz : c.expRead.get k = durationTo o.exp now
+      · have := hkeep _ hd (hr.2 k) hz
+        have hb : (c.expRead.get k != durationTo o.exp now) = false := by rw [← hz]; simp
+        simp only [hb, Bool.false_eq_true, ↓reduceIte, absN]
+        rw [← this]
+        simp [if_pos hz]
+      · have hb : (c.expRead.get k != durationTo o.exp now) = true := by simpa using hz
+        simp [hb, absN, deadlineAfter_eq_satAdd, if_neg hz]
+    · have hle : c.expRead.get k ≤ 0 := by omega
+      have : ¬ c.expRead.get k > 0 := by omega
+      simp [hle, this, absN]
+
+/-- **GetIfPresent** (table and result; the hit/miss counters are C20's) -/
+theorem getIfPresent_refines (c : Cfg) (s : Spec.State) (t : Tbl) (k : Nat) (hs : s.m = absT t)
+    (hnow : -4611686018427387904 < s.now ∧ s.now < 4611686018427387904)
+    (hwf : ∀ o, lookup t k = some o → NodeOk k o) (hr : ReadOk c) :
+    absT (getIfPresent (cfgOf c) t k s.now).1 = (Spec.getIfPresent c s k).1.m ∧
+    (getIfPresent (cfgOf c) t k s.now).2 = (Spec.getIfPresent c s k).2 := by
+  have hlive := live_abs s t k hs
+  unfold getIfPresent Spec.getIfPresent Spec.lookup
+  cases hl : lookup t k with
+  | none =>
+    rw [hl] at hlive
+    simp only [Option.map_none, Option.filter_none] at hlive
+    simp only [hlive]
+    refine ⟨?_, ?_⟩ <;> first | exact hs.symm | rfl | trivial
+  | some o =>
+    rw [hl] at hlive
+    obtain ⟨hkey, hmax, _, _⟩ := hwf o hl
+    have hvis := visible_iff_live o s.now
+    simp only [Option.map_some] at hlive
+    cases hx : hasExpired o s.now
+    · have hlv : (absN o).liveAt s.now = true := by rw [← hvis, hx]; rfl
+      have hlt : s.now < o.exp := by unfold hasExpired at hx; simp at hx; exact hx
+      have hread := read_refines c k o s.now hnow hkey hlt hmax hr
+      simp only [hlive, Option.filter, hlv, hx, ↓reduceIte, Bool.false_eq_true]
+      have hm : (Spec.touch c (Spec.hit s) k (absN o)).m = absT (store t k (calcExpiresAtAfterRead (cfgOf c) o s.now)) := by
+        show Spec.put s.m k { absN o with exp := Spec.expAfterRead c s.now k (absN o) } = _
+        rw [← put_absT, hread, hs]
+      have hph : (Spec.touch c (Spec.hit s) k (absN o)).phys k = some { absN o with exp := Spec.expAfterRead c s.now k (absN o) } := by
+        show Spec.find (Spec.put s.m k _) k = _
+        rw [find_put]
+        rfl
+      simp only [hph]
+      exact ⟨hm.symm, rfl⟩
+    · have hlv : (absN o).liveAt s.now = false := by rw [← hvis, hx]; rfl
+      simp only [hlive, Option.filter, hlv, hx, ↓reduceIte, Bool.false_eq_true]
+      refine ⟨?_, ?_⟩ <;> first | exact hs.symm | rfl | trivial
+
+/-- **SetIfAbsent**: a visible entry is only read (its deadline may move), otherwise the write rule applies -/
+theorem setIfAbsent_refines (c : Cfg) (s : Spec.State) (t : Tbl) (k v : Nat) (hs : s.m = absT t)
+    (hnow : -4611686018427387904 < s.now ∧ s.now < 4611686018427387904)
+    (hwf : ∀ o, lookup t k = some o → NodeOk k o) (hk1 : KindOk c.expiry) (hk2 : KindOk c.refresh) (hr : ReadOk c) :
+    absT (Impl.Table.set (cfgOf c) t k v true s.now).1 = (Spec.setIfAbsent c s k v).1.m ∧
+    (Impl.Table.set (cfgOf c) t k v true s.now).2.1 = (Spec.setIfAbsent c s k v).2.1 ∧
+    (Impl.Table.set (cfgOf c) t k v true s.now).2.2 = (Spec.setIfAbsent c s k v).2.2 := by
+  have hlive := live_abs s t k hs
+  have hset := set_refines c s t k v hs hnow hwf hk1 hk2
+  cases hl : lookup t k with
+  | none =>
+    rw [hl] at hlive
+    simp only [Option.map_none, Option.filter_none] at hlive
+    have himpl : Impl.Table.set (cfgOf c) t k v true s.now =
+        (store t k (atomicSet (cfgOf c) k v none s.now).1, Out.valOk v true, (atomicSet (cfgOf c) k v none s.now).2) := by
+      unfold Impl.Table.set; rw [hl]; simp
+    have hspec : Spec.setIfAbsent c s k v = ((Spec.write c (s.clearInflight k) k v).1, Out.valOk v true, (Spec.write c (s.clearInflight k) k v).2) := by
+      unfold Spec.setIfAbsent; rw [hlive]
+    rw [set_none _ _ _ _ _ hl] at hset
+    rw [himpl, hspec]
+    exact ⟨hset.1, rfl, hset.2.2⟩
+  | some o =>
+    rw [hl] at hlive
+    obtain ⟨hkey, hmax, _, _⟩ := hwf o hl
+    have hvis := visible_iff_live o s.now
+    simp only [Option.map_some] at hlive
+    cases hx : hasExpired o s.now
+    · have hlv : (absN o).liveAt s.now = true := by rw [← hvis, hx]; rfl
+      have hlt : s.now < o.exp := by unfold hasExpired at hx; simp at hx; exact hx
+      have hread := read_refines c k o s.now hnow hkey hlt hmax hr
+      have himpl : Impl.Table.set (cfgOf c) t k v true s.now =
+          (store t k (calcExpiresAtAfterRead (cfgOf c) o s.now), Out.valOk o.val false, []) := by
+        unfold Impl.Table.set; rw [hl]; simp [hx]
+      have hspec : Spec.setIfAbsent c s k v = (Spec.touch c s k (absN o), Out.valOk (absN o).val false, []) := by
+        unfold Spec.setIfAbsent; rw [hlive]; simp [Option.filter, hlv]
+      rw [himpl, hspec]
+      refine ⟨?_, rfl, rfl⟩
+      show absT (store t k (calcExpiresAtAfterRead (cfgOf c) o s.now)) = Spec.put s.m k { absN o with exp := Spec.expAfterRead c s.now k (absN o) }
+      rw [← hread, hs, put_absT]
+    · have hlv : (absN o).liveAt s.now = false := by rw [← hvis, hx]; rfl
+      have himpl : Impl.Table.set (cfgOf c) t k v true s.now =
+          (store t k (atomicSet (cfgOf c) k v (some o) s.now).1, Out.valOk v true, (atomicSet (cfgOf c) k v (some o) s.now).2) := by
+        unfold Impl.Table.set; rw [hl]; simp [hx]
+      have hspec : Spec.setIfAbsent c s k v = ((Spec.write c (s.clearInflight k) k v).1, Out.valOk v true, (Spec.write c (s.clearInflight k) k v).2) := by
+        unfold Spec.setIfAbsent; rw [hlive]; simp [Option.filter, hlv]
+      rw [set_some _ _ _ _ _ o hl] at hset
+      rw [himpl, hspec]
+      exact ⟨hset.1, rfl, hset.2.2⟩
+
 end OtterVerif.Proofs.TableRefine
